@@ -37,8 +37,8 @@ def _build_vssmon(work, variant='asan'):
 
 
 VARIANT_FLAGS = {'ndebug': ['-O2', '-g', '-DNDEBUG'],            # CMAKE_BUILD_TYPE=Release/RelWithDebInfo: assert() compiled out
-                 'unsigned-char': ['-O2', '-g', '-funsigned-char'],  # plain char is unsigned on ARM/AArch64/PowerPC Linux targets
-                 'Os': ['-Os', '-g'],                                 # size optimisation (__OPTIMIZE_SIZE__ paths)
+                 'unsigned-char': ['-O2', '-g', '-funsigned-char', '-funsigned-bitfields'],  # plain char is unsigned on ARM/AArch64/PowerPC Linux targets
+                 'Os': ['-Os', '-g', '-std=gnu2x'],                                 # size optimisation (__OPTIMIZE_SIZE__ paths)
                  'march-native': ['-O2', '-g', '-march=native'],     # whatever vector extensions this machine has (SSSE3/AVX2 fast paths)
                  'clang-O2': ['-O2', '-g']}
 _cfg = {}
@@ -137,7 +137,7 @@ def c06(tier, seed):
                         'brief one-shot, brief copy+fields+Finalize) x 77 identifier cases (0, 1, every id 0x7F0..0x811, every single id bit, '
                         '2^29-1, ids >= 2^29, ...) + %d random ids x payload classes x 2 placements (16 KiB random arena at byte offsets 0..7: everything outside the padded '
                         'message must be unchanged; exact-extent heap message and source under ASan), %d seeds; return value, payload '
-                        'length read-back and payload pointer checked.  Lengths 65..2028 are observed and counted only (outside the '
+                        'length read-back and payload pointer checked, the payload handed in must be unchanged.  Lengths 65..2028 are observed and counted only (outside the '
                         'statement).  Non-trivial: distinct (length, builder, variant, identifier class) cells.' % (R, nseeds) + gnote,
                    exhaustive=True)
         return vlib.finish('C06', 'exploration', tier, seed, obs, cov, ASSUME[1:3] + [
@@ -164,8 +164,8 @@ def c07(tier, seed):
                         'often) x static ids {0,1,2^32-1,...} / interop paths of length classes {0..15 by residue, 255, 256, 257, '
                         'random <= 5000, 65533} x values (scalars: extremes, byte-lane markers, NaN payloads, +-0, subnormals, '
                         'infinities; strings/arrays of length classes 0,1,2,3,13,255..257, random, maximum whole-element count); header '
-                        'fields, SetVssPath and SetVssData each followed by a whole-arena comparison with the reference encoding; a quarter of the '
-                        'corpus again in an unoptimised gcc -O0 build and a few thousand messages in freestanding 32-bit (ILP32), -DNDEBUG, -funsigned-char, -Os, -march=native and clang MemorySanitizer builds.  '
+                        'fields, SetVssPath and SetVssData each followed by a whole-arena comparison with the reference encoding, the caller\'s value bytes must be unchanged and a second encode of the same object must give the same message; a quarter of the '
+                        'corpus again in an unoptimised gcc -O0 build and a few thousand messages in freestanding 32-bit (ILP32), -DNDEBUG, -funsigned-char -funsigned-bitfields, -Os -std=gnu2x, -march=native and clang MemorySanitizer builds.  '
                         'Non-trivial: a value of non-zero encoded size was written and matched, or a reserved mode wrote nothing.' % N + gnote)
         return vlib.finish('C07', 'exploration', tier, seed, obs, cov, ASSUME, t0, min_evals=20000)
     finally:
@@ -193,7 +193,7 @@ def c08(tier, seed):
                         'values bit-exact, two-call protocol for the 13 variable-length types (length query writes only the length, '
                         'copy phase writes exactly the reported bytes into an exact-extent destination, elements bit-exact).  Result '
                         'objects live in an arena and are compared with a typed model.  An eighth of the corpus again in a gcc -O0 build, '
-                        'a few thousand messages in freestanding 32-bit (ILP32), -DNDEBUG, -funsigned-char, -Os, -march=native and clang MemorySanitizer builds.  Each message counts once as non-trivial.' % N + gnote)
+                        'a few thousand messages in freestanding 32-bit (ILP32), -DNDEBUG, -funsigned-char -funsigned-bitfields, -Os -std=gnu2x, -march=native and clang MemorySanitizer builds.  Each message counts once as non-trivial.' % N + gnote)
         return vlib.finish('C08', 'exploration', tier, seed, obs, cov, ASSUME, t0, min_evals=20000)
     finally:
         work.cleanup()
@@ -226,7 +226,7 @@ def c09(tier, seed):
                         'ceil(n/4), pad field = (4-n%%4)%%4, bytes [n, n+pad) zero, nothing else); every length also on messages just built by the encoder (datatype, path and value lengths that add up; 0..2 application bytes behind), in a buffer of exactly the padded size in front of an inaccessible page and, under ASan, in an exact-size heap block (nothing behind the pad bytes may be touched, not even rewritten with the same value); all 512 length values through the '
                         'dedicated setter/getter vs the generic accessors on 3 backgrounds.  distinct_nontrivial = distinct lengths + '
                         'distinct length-field values.  '
-                        'The same sweep (3 backgrounds, 2-4 offsets) in freestanding 32-bit (ILP32), -DNDEBUG, -funsigned-char, -Os, -march=native and clang MemorySanitizer builds.' % (R - 2, len(jobs)) + gnote)
+                        'The same sweep (3 backgrounds, 2-4 offsets) in freestanding 32-bit (ILP32), -DNDEBUG, -funsigned-char -funsigned-bitfields, -Os -std=gnu2x, -march=native and clang MemorySanitizer builds.' % (R - 2, len(jobs)) + gnote)
         return vlib.finish('C09', 'exploration', tier, seed, obs, cov, ASSUME[1:3], t0, min_evals=10000)
     finally:
         work.cleanup()
@@ -250,7 +250,7 @@ def c10(tier, seed):
                         'and compared with the reference concatenation; counted; unpacked from an exact-extent copy of the reference '
                         'packing with requested counts {0, n-1, n, n+1, n+7, n+8} in lengths-only and copy phases (exact-extent '
                         'destinations); string objects and the pointer array live in an arena (objects beyond the packed count must '
-                        'stay untouched); a few hundred lists in freestanding 32-bit (ILP32), -DNDEBUG, -funsigned-char, -Os, -march=native and clang MemorySanitizer builds.  Each list counts once as non-trivial.' % N + gnote)
+                        'stay untouched); the strings packed and the packed array unpacked must be unchanged afterwards; a few hundred lists in freestanding 32-bit (ILP32), -DNDEBUG, -funsigned-char -funsigned-bitfields, -Os -std=gnu2x, -march=native and clang MemorySanitizer builds.  Each list counts once as non-trivial.' % N + gnote)
         return vlib.finish('C10', 'exploration', tier, seed, obs, cov, ASSUME, t0, min_evals=20000)
     finally:
         work.cleanup()
